@@ -709,8 +709,18 @@ def bad_color_text(rnd):
     return rnd.choice(["nope", "#12345", "rgb(1,2)", "hsl(1,2,3)", "", " ", "12", "rgb(300", "gray(-1)", "redd", "#ggg", "1e", "ünï", "rgb(1,2,3) x"])
 
 
+def is_number(t):
+    try:
+        float(t)
+        return t.strip() == t and t not in ("-", "") and not t.lower().lstrip("+-").startswith(("inf", "nan"))
+    except ValueError:
+        return False
+
+
 def number_text(rnd, lo, hi):
-    k = rnd.randrange(10)
+    k = rnd.randrange(11)
+    if k == 10:
+        return "-%.3f" % rnd.uniform(lo, hi)
     if k == 0:
         return rnd.choice(["abc", "", "1e", "0x10", " 1", "1 ", "1,5", "--", "١"])
     if k == 1:
@@ -784,11 +794,11 @@ def modelled_case(rnd, subs=None):
     data, desc = stdin_script(rnd)
     if sub == "mix":
         argv = ["mix", "-f", cargs[1], "-s", cargs[2], cargs[0]] + colors
-        if cargs[1].startswith("-") or cargs[0].startswith("-") and cargs[0] != "-":
+        if (cargs[1].startswith("-") and not is_number(cargs[1])) or cargs[0].startswith("-") and cargs[0] != "-":
             argv = None
     else:
         argv = [sub] + cargs + colors
-        if any(a.startswith("-") and a != "-" for a in cargs):
+        if any(a.startswith("-") and a != "-" and not is_number(a) for a in cargs):
             argv = None
     op = "cli %s %d %s %d %s %d %s" % (sub, len(cargs), " ".join(hexs(a) for a in cargs), len(colors),
                                          " ".join(hexs(c) for c in colors), len(desc), " ".join(desc))
@@ -1174,7 +1184,7 @@ def c10(res, tier, seed, lib):
         if p == "alpha":
             continue
         v = {"red": "10", "green": "200", "blue": "99", "hsl-hue": "123", "hue": "77", "lightness": "60", "chroma": "30",
-             "lab-a": "20", "lab-b": "30", "oklab-l": "0.6", "oklab-a": "0.1", "oklab-b": "0.05", "hsl-saturation": "0.4",
+             "lab-a": "-20", "lab-b": "-30", "oklab-l": "0.6", "oklab-a": "0.1", "oklab-b": "0.05", "hsl-saturation": "0.4",
              "hsl-lightness": "0.6"}.get(p, "0.5")
         cmds.append(["set", p, v])
     for cmd in cmds:
@@ -1558,8 +1568,6 @@ def c06(res, tier, seed, lib):
                 v = rnd.uniform(0, 80)
             else:
                 v = rnd.choice([0, 1, 0.5, rnd.uniform(0, 1), 1.5])
-            if v < 0:
-                continue  # clap would read a negative value as a flag
             vt = repr(float(v))
             rc, out, err = run_cli(["set", p, vt, colors[ci]])
             inp = "set %s %s %s" % (p, vt, colors[ci])
@@ -1604,7 +1612,7 @@ def c06(res, tier, seed, lib):
     cols += ["black", "white", "hsla(100,50%,50%,0.5)"]
     cinf = infos(cols)
     for cmd, ch, sign in [("lighten", 2, 1), ("darken", 2, -1), ("saturate", 1, 1), ("desaturate", 1, -1)]:
-        for amt in ["0", "0.1", "0.25", "1", "1.5", "2", "50", "100", "1000", "0.999", "1.0001"]:
+        for amt in ["0", "0.1", "0.25", "1", "1.5", "2", "50", "100", "1000", "0.999", "1.0001", "-0.1", "-0.5", "-2", "-0"]:
             rc, out, err = run_cli([cmd, amt] + cols)
             lines = out.decode().split("\n")[:-1]
             inp0 = "%s %s" % (cmd, amt)
@@ -1622,7 +1630,7 @@ def c06(res, tier, seed, lib):
                 res.check(abs(b[ch] - want) <= 0.00051, "cli-amount-added-and-clamped", "cli:" + cmd, inp, "printed %s: channel %r, expected %r" % (ln, b[ch], want))
                 other = 3 - ch
                 res.check(abs(b[other] - a[other]) <= 0.00051 and abs(b[3] - a[3]) <= 0.00051, "cli-other-channels-kept", "cli:" + cmd, inp, "printed %s from %r" % (ln, a))
-    for amt in ["0", "30", "180", "360", "720", "400", "0.5"]:
+    for amt in ["0", "30", "180", "360", "720", "400", "0.5", "-90", "-360", "-0.5", "-725"]:
         rc, out, err = run_cli(["rotate", amt] + cols)
         lines = out.decode().split("\n")[:-1]
         if rc != 0 or len(lines) != len(cols):
